@@ -169,7 +169,9 @@ def build(rng, tier, schemas):
     scripts = []
     for sch in schemas:
         for _ in range(n_scripts):
-            lines, meta = ["#mode tracksv1", "create %s %s" % (sch, "disk" if rng.random() < 0.2 else "mem")], [None, None]
+            # `+alias` (harness only): two handle objects per track variable, calls alternate between them
+            lines, meta = ["#mode tracksv1", "create %s %s%s" % (sch, "disk" if rng.random() < 0.2 else "mem",
+                                                                 " +alias" if rng.random() < 0.5 else "")], [None, None]
             inits = [G.g_snapshot(rng, 1, "quick", valid=True), G.minimal(b"b/min.mp3"),
                      G.g_snapshot(rng, 3, "quick", valid=True)]
             for t, x in zip(TRACKS, inits):
